@@ -15,7 +15,9 @@ func init() {
 	engines["filters-cli"] = engineFiltersCLI
 }
 
-var c04PlatformSets = [][]string{nil, nil, {"linux"}, {"windows"}, {"macos"}, {"windows", "macos"}, {"Darwin"}, {"LINUX"}}
+var c04PlatformSets = [][]string{nil, nil, {"linux"}, {"windows"}, {"macos"}, {"windows", "macos"}, {"Darwin"}, {"LINUX"},
+	// what `--platform "linux, macos"`, `--platform linux,` or `--platform ""` hand to the engine, and alias spellings
+	{"linux", ""}, {"", "windows"}, {" "}, {""}, {"linux", " macos"}, {"osx"}, {"darwin "}, {"powershell"}, {"Windows", ""}}
 
 func c04DB(ctx *Ctx, k int) vlib.DBSpec {
 	return vlib.DBSpec{N: []int{6, 15, 30, 60, 150}[k%5], TieHeavy: k%3 == 0, Platforms: 2 - (k%5)/4, Pipelines: true,
@@ -44,13 +46,69 @@ func engineFilters(ctx *Ctx) {
 				continue
 			}
 		}
+		cdb := database.NewCachedDatabase(db)
+		if g := ctx.G(d); dbName != "shipped" && g%4 == 1 {
+			// a database that grows: a main file (without any platform tag in half of the cases) to which tagged entries are added by
+			// the notebook merge, by a refresh of the caching wrapper, or by appending - the filters hold for what is searched now
+			main := vlib.GenCommands(r, vlib.DBSpec{N: 3 + r.Intn(20), TieHeavy: true, Platforms: []int{0, 0, 1}[r.Intn(3)], Pipelines: true, PseudoCmd: true})
+			add := vlib.GenCommands(r, vlib.DBSpec{N: 3 + r.Intn(20), TieHeavy: true, Platforms: 2, Pipelines: true, PseudoCmd: true})
+			how := []string{"notebook-merge", "refresh", "append", "refresh-then-append"}[(g/4)%4]
+			ok := ctx.R.Guard("C04", "grow database ("+how+")", dbName, func() {
+				mp := filepath.Join(ctx.Scratch, fmt.Sprintf("c04main%d.yml", d))
+				pp := filepath.Join(ctx.Scratch, fmt.Sprintf("c04pers%d.yml", d))
+				if err := vlib.WriteYAML(mp, main); err != nil {
+					panic(err)
+				}
+				defer os.Remove(mp)
+				defer os.Remove(pp)
+				switch how {
+				case "notebook-merge":
+					if err := vlib.WriteYAML(pp, add); err != nil {
+						panic(err)
+					}
+					x, err := database.LoadDatabaseWithPersonal(mp, pp)
+					if err != nil {
+						panic(err)
+					}
+					db = x
+					cdb = database.NewCachedDatabase(db)
+				default:
+					x, err := database.LoadDatabaseWithPersonal(mp, pp) // notebook absent
+					if err != nil {
+						panic(err)
+					}
+					db = x
+					cdb = database.NewCachedDatabase(db)
+					warm := vlib.DBWords(db.Commands)
+					for i := 0; i < 3 && len(warm) > 0; i++ { // searches before the growth (whatever is derived from the content is derived now)
+						cdb.SearchWithOptionsAndCache(warm[r.Intn(len(warm))], database.SearchOptions{Limit: 5, UseFuzzy: true})
+					}
+					grown := append(append([]database.Command{}, db.Commands...), vlib.MustLoad(add).Commands...)
+					switch how {
+					case "refresh":
+						cdb.UpdateDatabase(grown)
+						db = cdb.Database
+					case "append":
+						db.Commands = grown
+					default:
+						cdb.UpdateDatabase(append([]database.Command{}, db.Commands...))
+						db = cdb.Database
+						db.Commands = append(db.Commands, vlib.MustLoad(add).Commands...)
+					}
+				}
+			})
+			if !ok {
+				continue
+			}
+			dbName += "/grown-by-" + how
+			ctx.R.Path("grown-"+how, 1)
+		}
 		cmds := db.Commands
 		N := len(cmds)
 		words := vlib.DBWords(cmds)
 		if len(words) > 3000 {
 			words = words[:3000]
 		}
-		cdb := database.NewCachedDatabase(db)
 		mdb := database.NewMonitoredDatabase(db)
 		for qi := 0; qi < nQ; qi++ {
 			kind := qi % 3 // 0 lexical, 1 stop/punct, 2 typo (fuzzy path)
